@@ -2,9 +2,10 @@
 use crate::core::f64_to_bits;
 use crate::rng::Rng;
 
-pub const CLASSES: [&str; 17] = [
+pub const CLASSES: [&str; 18] = [
     "uniform", "lattice", "allequal", "twovalued", "duppoints", "euclid", "geomline", "blobs", "sorted",
     "revsorted", "magnitude", "negmixed", "colmajor", "linewalk", "shrinkline", "ulpties", "signedzeros",
+    "ratioblobs",
 ];
 
 /// Points on a line with strictly growing gaps, observation 0 leftmost, the others numbered so that a
